@@ -6,25 +6,21 @@ from checks import live_common as lc
 LEVEL = "model_checking"
 
 
-def check(ctx):
-    thorough = ctx.tier == "thorough"
-    ctx.build()
-    ctx.tlc("MC_Registry", workers=12)
-    if thorough:
-        ctx.tlc("MC_Registry", constants={"Conns": "{1, 2, 3, 4}", "Callers": "{1, 2, 3}", "CapOp": 3}, workers=12, name="MC_Registry_big")
-    tr = os.path.join(ctx.scratch, "c11_live.ndjson")
-    rc, err, events = lc.run_live(ctx, ["live-c11", 16 if thorough else 6, 60 if thorough else 20, tr], timeout=1800)
+def registry_run(ctx, args, name):
+    """one live run of the registry driver, validated by Trace_Registry"""
+    tr = os.path.join(ctx.scratch, "c11_live_%s.ndjson" % name)
+    rc, err, events = lc.run_live(ctx, args[:3] + [tr] + args[3:], timeout=1800)
     lc.crash_check(ctx, rc, err, "live-c11")
     for e in events:
         if e["ev"] == "cmd_stranded":
             ctx.violation("caller-stranded", "SendActiveMessage(k=%s) had not returned 4 s after its time-out" % e.get("k"), {"kind": "live", "event": e})
     events.sort(key=lambda e: e["g"])
-    tr2 = os.path.join(ctx.scratch, "c11_trace.ndjson")
+    tr2 = os.path.join(ctx.scratch, "c11_trace_%s.ndjson" % name)
     with open(tr2, "w") as f:
         for e in events:
             f.write(json.dumps(e) + "\n")
-    verdict = os.path.join(ctx.scratch, "c11_verdict.json")
-    res = ctx.tlc("Trace_Registry", env={"VERIF_TRACE": tr2, "VERIF_OUT": verdict}, workers=1, timeout=2400)
+    verdict = os.path.join(ctx.scratch, "c11_verdict_%s.json" % name)
+    res = ctx.tlc("Trace_Registry", env={"VERIF_TRACE": tr2, "VERIF_OUT": verdict}, workers=1, timeout=2400, name="Trace_Registry_" + name)
     if res["distinct"] != len(events) + 1 or not os.path.exists(verdict):
         raise vlib.ToolFailure("Trace_Registry consumed %d of %d events:\n%s" % (res["distinct"] - 1, len(events), res["out"][-2000:]))
     v = vlib.read_nd(verdict)[-1]
@@ -37,6 +33,18 @@ def check(ctx):
     for e in events:
         if e["ev"] == "rejoin" and not e["ok"]:
             ctx.violation("key-not-free-after-disconnect", "key %s could not be taken by a new connection" % e["key"], {"kind": "registry-trace"})
+    return events
+
+
+def check(ctx):
+    thorough = ctx.tier == "thorough"
+    ctx.build()
+    ctx.tlc("MC_Registry", workers=12)
+    if thorough:
+        ctx.tlc("MC_Registry", constants={"Conns": "{1, 2, 3, 4}", "Callers": "{1, 2, 3}", "CapOp": 3}, workers=12, name="MC_Registry_big")
+    events = registry_run(ctx, ["live-c11", 16 if thorough else 6, 60 if thorough else 20], "default")
+    # the same with a custom key function (WithKeyFunc): keys are not phone numbers, one of them is the empty string
+    registry_run(ctx, ["live-c11", 6, 30 if thorough else 12, "keyfunc"], "keyfunc")
     nj = sum(1 for e in events if e["ev"] == "M.join.ok"); nr = sum(1 for e in events if e["ev"] == "M.join.refused")
     nroute = sum(1 for e in events if e["ev"] == "M.route.before"); nne = sum(1 for e in events if e["ev"] == "M.route.notexist")
     if nr == 0 or nroute == 0 or nne == 0:
